@@ -262,6 +262,7 @@ func checkC06(w *World, c *Check, tier string) {
 	c.Trusted = []string{"go/ssa", "fastjson GetStringBytes/StringBytes return the decoded string value", "bytes/strings Replace*/Trim* are the only rewriting primitives the package uses (checked: any other callee on the path is reported)"}
 	c.floor("C06.flow", 2)
 	c.floor("C06.kv", 4)
+	checkEscaper(w, c, "C06.escaper")
 	pr := newProver(w)
 	tf := &textFlow{w: w, pr: pr, rewriter: map[*ssa.Function]int{}, reparser: map[*ssa.Function]int{}, memo: map[ssa.Value]bool{}, busy: map[ssa.Value]bool{}}
 	tf.discover()
